@@ -44,11 +44,14 @@ pub struct Obs {
     pub g3: Vec<String>,
     /// hash over addresses, links, sizes, identities: "exactly as it was"
     pub fingerprint: u64,
+    /// id -> position in `ents` (first occurrence)
+    pub index: std::collections::HashMap<u32, u32>,
 }
 
 impl Obs {
-    pub fn pos(&self, id: u32) -> Option<usize> { self.ents.iter().position(|e| e.id == id) }
-    pub fn find(&self, id: u32) -> Option<&Ent> { self.ents.iter().find(|e| e.id == id) }
+    pub fn pos(&self, id: u32) -> Option<usize> { if self.ents.len() <= 8 { self.ents.iter().position(|e| e.id == id) } else { self.index.get(&id).map(|p| *p as usize) } }
+    pub fn find(&self, id: u32) -> Option<&Ent> { self.pos(id).map(|p| &self.ents[p]) }
+    pub fn has(&self, id: u32) -> bool { self.pos(id).is_some() }
     pub fn sum_rec(&self) -> u128 { self.ents.iter().map(|e| e.rec as u128).sum() }
     pub fn sum_esize(&self, base: usize) -> u128 { self.ents.iter().map(|e| e.esize(base)).sum() }
     pub fn ids(&self) -> Vec<u32> { self.ents.iter().map(|e| e.id).collect() }
@@ -129,8 +132,17 @@ pub fn observe<S: HB>(c: &Cache<S>, o: &ObsOpts) -> Obs {
     }
     // ---- G3 lookup identity
     if g1.is_empty() && o.universe > 0 {
-        for id in 0..o.universe {
-            let want = ents.iter().find(|e| e.id == id).map(|e| (e.kaddr, e.vaddr));
+        let mut by_id: std::collections::HashMap<u32, (usize, usize)> = std::collections::HashMap::new();
+        if ents.len() > 8 { for e in ents.iter().rev() { by_id.insert(e.id, (e.kaddr, e.vaddr)); } }
+        // small universes are swept completely; large ones: every present id plus a sample of absent ones
+        let probe: Vec<u32> = if o.universe <= 64 { (0..o.universe).collect() } else {
+            let mut v: Vec<u32> = ents.iter().map(|e| e.id).collect();
+            let salt = ents.len() as u64 ^ c.current_size() as u64;
+            for i in 0..16u64 { v.push((mix(&[salt, i]) % o.universe as u64) as u32); }
+            v
+        };
+        for id in probe {
+            let want = if ents.len() > 8 { by_id.get(&id).cloned() } else { ents.iter().find(|e| e.id == id).map(|e| (e.kaddr, e.vaddr)) };
             let b = c.peek_entry(&KeyId(id)).map(|(k, v)| (k as *const TKey as usize, v as *const TVal as usize));
             if b != want { g3.push(format!("peek_entry(&KeyId({})) finds {:?}, the walk shows {:?}", id, b, want)); }
             if c.contains(&KeyId(id)) != want.is_some() { g3.push(format!("contains(&KeyId({})) disagrees with the walk", id)); }
@@ -147,8 +159,10 @@ pub fn observe<S: HB>(c: &Cache<S>, o: &ObsOpts) -> Obs {
     let mut fp = mix(&[w.seal as u64, w.seal_prev as u64, w.seal_next as u64, w.buckets as u64, w.table_data_end as u64, len as u64, c.current_size() as u64, c.max_size() as u64, c.capacity() as u64]);
     for n in &w.forward { fp = mix(&[fp, n.addr as u64, n.prev as u64, n.next as u64, n.size as u64, n.key as u64, n.value as u64]); }
     for e in &ents { fp = mix(&[fp, e.kuid, e.vuid, e.kheap as u64, e.vheap as u64, e.stamp]); }
+    let mut index = std::collections::HashMap::new();
+    if ents.len() > 8 { index.reserve(ents.len()); for (i, e) in ents.iter().enumerate() { index.entry(e.id).or_insert(i as u32); } }
     Obs {
-        ents, len, cur: c.current_size(), max: c.max_size(), cap: c.capacity(), empty: c.is_empty(), buckets: w.buckets,
+        index, ents, len, cur: c.current_size(), max: c.max_size(), cap: c.capacity(), empty: c.is_empty(), buckets: w.buckets,
         seal: w.seal, table_at: w.table_data_end, g1, g2, g3, fingerprint: fp,
     }
 }
